@@ -145,3 +145,118 @@ pub enum TlsConfigError {
         source: rustls::Error,
     },
 }
+
+/// Verification hooks, compiled only with `--cfg iroh_verif`.
+#[cfg(iroh_verif)]
+pub mod verif_hooks {
+    use iroh_base::EndpointId;
+    use rustls::{
+        DigitallySignedStruct,
+        client::danger::ServerCertVerifier,
+        internal::msgs::codec::{Codec, Reader},
+        pki_types::{CertificateDer, IpAddr, ServerName, UnixTime},
+        server::danger::ClientCertVerifier,
+    };
+
+    use super::verifier::{ClientCertificateVerifier, ServerCertificateVerifier};
+
+    /// `tls::name::encode`.
+    pub fn name_encode(id: EndpointId) -> String {
+        super::name::encode(id)
+    }
+
+    /// `tls::name::decode`.
+    pub fn name_decode(name: &str) -> Option<EndpointId> {
+        super::name::decode(name)
+    }
+
+    fn server_name(name: &str, as_ip: bool) -> Option<ServerName<'static>> {
+        if as_ip {
+            let ip: std::net::IpAddr = name.parse().ok()?;
+            Some(ServerName::IpAddress(IpAddr::from(ip)))
+        } else {
+            ServerName::try_from(name.to_string()).ok()
+        }
+    }
+
+    /// `ServerCertificateVerifier::verify_server_cert`.
+    ///
+    /// Returns `None` if `name` cannot be made into a `ServerName` at all (rustls rejects it
+    /// before the verifier is reached), otherwise the verifier's verdict with the error's
+    /// debug rendering.
+    pub fn verify_server_cert(
+        end_entity: &[u8],
+        intermediates: &[Vec<u8>],
+        name: &str,
+        as_ip: bool,
+    ) -> Option<Result<(), String>> {
+        let sn = server_name(name, as_ip)?;
+        let inter: Vec<CertificateDer<'_>> = intermediates
+            .iter()
+            .map(|c| CertificateDer::from(c.as_slice()))
+            .collect();
+        Some(
+            ServerCertificateVerifier
+                .verify_server_cert(
+                    &CertificateDer::from(end_entity),
+                    &inter,
+                    &sn,
+                    &[],
+                    UnixTime::since_unix_epoch(std::time::Duration::from_secs(1_700_000_000)),
+                )
+                .map(|_| ())
+                .map_err(|e| format!("{e:?}")),
+        )
+    }
+
+    /// `ClientCertificateVerifier::verify_client_cert`.
+    pub fn verify_client_cert(end_entity: &[u8], intermediates: &[Vec<u8>]) -> Result<(), String> {
+        let inter: Vec<CertificateDer<'_>> = intermediates
+            .iter()
+            .map(|c| CertificateDer::from(c.as_slice()))
+            .collect();
+        ClientCertificateVerifier
+            .verify_client_cert(
+                &CertificateDer::from(end_entity),
+                &inter,
+                UnixTime::since_unix_epoch(std::time::Duration::from_secs(1_700_000_000)),
+            )
+            .map(|_| ())
+            .map_err(|e| format!("{e:?}"))
+    }
+
+    /// `verify_tls13_signature` of the server (`server = true`) or client certificate verifier
+    /// for a handshake signature with the given wire scheme number.
+    pub fn verify_tls13_signature(
+        server: bool,
+        message: &[u8],
+        cert: &[u8],
+        scheme: u16,
+        signature: &[u8],
+    ) -> Result<(), String> {
+        let mut wire = scheme.to_be_bytes().to_vec();
+        wire.extend_from_slice(&(signature.len() as u16).to_be_bytes());
+        wire.extend_from_slice(signature);
+        let dss = DigitallySignedStruct::read(&mut Reader::init(&wire))
+            .map_err(|e| format!("{e:?}"))?;
+        let cert = CertificateDer::from(cert);
+        let r = if server {
+            ServerCertificateVerifier.verify_tls13_signature(message, &cert, &dss)
+        } else {
+            ClientCertificateVerifier.verify_tls13_signature(message, &cert, &dss)
+        };
+        r.map(|_| ()).map_err(|e| format!("{e:?}"))
+    }
+
+    /// `verify_tls12_signature` of either verifier is always refused.
+    pub fn tls12_refused() -> bool {
+        let dss = DigitallySignedStruct::read(&mut Reader::init(&[8, 7, 0, 0])).expect("dss");
+        let c = CertificateDer::from(&[][..]);
+        ServerCertificateVerifier
+            .verify_tls12_signature(&[], &c, &dss)
+            .is_err()
+            && ClientCertificateVerifier
+                .verify_tls12_signature(&[], &c, &dss)
+                .is_err()
+    }
+}
